@@ -221,5 +221,21 @@ func corpusC06() []*scen.Scenario {
 	m6 := &scen.Method{Name: "ManyArgs", Src: scen.Param{Type: "*MA"}, Dst: scen.Param{Type: "*MB"}, Extras: extras,
 		Notations: []scen.Notation{scen.N("map", "$10.Deep", "N"), scen.N("map", "$11", "M"), scen.N("map", "$12.Name", "P"), scen.N("map", "$2", "Q")},
 		Probes: []scen.Probe{{Dst: "N", Mech: "map", DstT: "int", Extra: "argpath"}, {Dst: "M", Mech: "map", DstT: "string", Extra: "arg"}, {Dst: "P", Mech: "map", DstT: "string", Extra: "argpath"}, {Dst: "Q", Mech: "map", DstT: "int", Extra: "arg"}}}
-	return []*scen.Scenario{b.Manual(m1, m2, m3), b2.Manual(m4, m5), b3.Manual(m6)}
+	// regular (not a known finding): two struct fields with the same NAME at different destination paths
+	// (Billing.Address / Shipping.Address, a shared type, parents copied member by member); notations address
+	// members of the second one only, and in the third method of the first one only
+	b4 := scen.NewBuilder(nil, scen.Profile{}, "kw-c06-same-leaf-name", "kwc06d")
+	b4.Struct("", "Addr", "Country string", "Phone string", "Zip string")
+	b4.Struct("", "SParty", "Address Addr", "N int")
+	b4.Struct("", "DParty", "Address Addr", "N int")
+	b4.Struct("", "SOrd", "Billing SParty", "Shipping SParty", "Aux string")
+	b4.Struct("", "DOrd", "Billing DParty", "Shipping DParty")
+	pr := []scen.Probe{{Dst: "Billing", Mech: "nested", DstT: "DParty", SrcT: "SParty"}, {Dst: "Shipping", Mech: "nested", DstT: "DParty", SrcT: "SParty"}}
+	m7 := &scen.Method{Name: "SameLeafSecond", Src: scen.Param{Type: "*SOrd"}, Dst: scen.Param{Type: "*DOrd"},
+		Notations: []scen.Notation{scen.N("literal", "Shipping.Address.Country", "\"JP\""), scen.N("skip", "Shipping.Address.Phone")}, Probes: pr}
+	m8 := &scen.Method{Name: "SameLeafSecondArg", Src: scen.Param{Type: "*SOrd"}, Dst: scen.Param{Type: "*DOrd"},
+		Notations: []scen.Notation{scen.N("style", "arg"), scen.N("map", "Aux", "Shipping.Address.Zip"), scen.N("skip", "Shipping.Address.Phone")}, Probes: pr}
+	m9 := &scen.Method{Name: "SameLeafFirst", Src: scen.Param{Type: "*SOrd"}, Dst: scen.Param{Type: "*DOrd"},
+		Notations: []scen.Notation{scen.N("literal", "Billing.Address.Country", "\"JP\""), scen.N("skip", "Billing.Address.Phone")}, Probes: pr}
+	return []*scen.Scenario{b.Manual(m1, m2, m3), b2.Manual(m4, m5), b3.Manual(m6), b4.Manual(m7, m8, m9)}
 }
